@@ -18,7 +18,12 @@ One operation line is one scenario:
   (token as in the `ca` component) / a sync / an error response / a response without payload,
   in this global order;
 * `<i>V<sync 0|1>!<seed>:<draws>!<value>!…`: target `i` is a fake agent in generator mode
-  (`fake.Config.Values`, tokens of the `fq` component): its whole stream, unfolded by the C20 model.
+  (`fake.Config.Values`, tokens of the `fq` component): its whole stream, unfolded by the C20 model;
+* `<i>R` / `<i>Z`: the session of target `i` ends here — cut abruptly (`R`: `Recv` fails with an
+  error status) or closed by the target itself (`Z`: the server handler returns nil, `Recv` =
+  `io.EOF`) — and the manager subscribes again: `manager.handleUpdates` calls the `Reset` callback
+  either way, `monitor` records the error (`Pipeline.restartSteps`).  The items of `i` that follow
+  are its next session; leaves it does not send again must disappear from every client's view.
 
 `cli <client> <run> <queries> …` (same arguments, `<client>` ignored): what `gnmi_cli -qt once` displays per
 target at quiescence — the leaves of the pathmap `cli.displayWalk` builds (`Client.cliGroupSorted`) —
@@ -27,8 +32,9 @@ in the observation format of `new`.
 Observation: for every target (sorted by name) `<name>=<status>[<leaf>,…]`, status `sync` |
 `nosync` | `err`, leaves `path=value` sorted; leaves whose last element is `zz-end` (the
 harness' end-of-stream marker) and the collector's own `meta/…` leaves other than `meta/sync`,
-`meta/connected` are not shown.  Spec column: the same, computed from `Relay.expected` of the
-streams' final views when every stream is well formed (else the model's answer again).
+`meta/connected` are not shown.  Spec column: the same, computed from `Relay.expected` of the final
+views of the targets' *last sessions* (`Relay.lastSession`) when every session is well formed (else
+the model's answer again).
 -/
 namespace Driver.E2E
 open Gnmi Gnmi.Cache Gnmi.Pipeline Driver
@@ -45,11 +51,16 @@ inductive ClientMode where
   | once
   | stream (k : Nat)
 
+/-- one scenario item of a target: a response, or the end of its session (`clean`: by the target) -/
+inductive Ev where
+  | it (i : TItem)
+  | restart (clean : Bool)
+
 structure Scenario where
   client : ClientMode := .once
   queries : List Path := [[]]
   targets : List Decl := []
-  items : List (Nat × TItem) := []      -- global order
+  items : List (Nat × Ev) := []      -- global order
 
 def endMarker : String := "zz-end"
 
@@ -115,11 +126,13 @@ def parseTok (sc : Scenario) (tok : String) : Scenario :=
       let payload := String.ofList rest
       if k = 'U' then
         let pn := CA.parseNoti payload
-        { sc with items := sc.items ++ [(i, TItem.update pn.1 pn.2)] }
-      else if k = 'S' then { sc with items := sc.items ++ [(i, TItem.sync)] }
-      else if k = 'E' then { sc with items := sc.items ++ [(i, TItem.error)] }
-      else if k = 'N' then { sc with items := sc.items ++ [(i, TItem.nilResponse)] }
-      else if k = 'V' then { sc with items := sc.items ++ (valuesItems payload).map (fun it => (i, it)) }
+        { sc with items := sc.items ++ [(i, .it (TItem.update pn.1 pn.2))] }
+      else if k = 'S' then { sc with items := sc.items ++ [(i, .it TItem.sync)] }
+      else if k = 'E' then { sc with items := sc.items ++ [(i, .it TItem.error)] }
+      else if k = 'N' then { sc with items := sc.items ++ [(i, .it TItem.nilResponse)] }
+      else if k = 'V' then { sc with items := sc.items ++ (valuesItems payload).map (fun it => (i, .it it)) }
+      else if k = 'R' then { sc with items := sc.items ++ [(i, .restart false)] }
+      else if k = 'Z' then { sc with items := sc.items ++ [(i, .restart true)] }
       else sc
     | _ => sc
 
@@ -173,22 +186,35 @@ def cfgOf (sc : Scenario) : TargetCfg.Cfg :=
 
 def nameOf (sc : Scenario) (i : Nat) : String := (sc.targets[i]?.map (·.name)).getD ""
 
-/-- the global step list: every item in order (flagging the first of each target), with the
-STREAM subscriptions after `k` items -/
-def stepsOf (sc : Scenario) : List Step :=
-  let recvs := sc.items.zipIdx.map (fun x =>
-    let first := !((sc.items.take x.2).any (fun y => y.1 == x.1.1))
-    Step.recv (nameOf sc x.1.1) first 0 x.1.2)
+def isRestart : Ev → Bool
+  | .restart _ => true
+  | _ => false
+
+/-- is item number `idx` the first response of its target's session (none before it since the start
+or since the target's last restart)? -/
+def firstOfSession (items : List (Nat × Ev)) (idx : Nat) (t : Nat) : Bool :=
+  let before := (items.take idx).filter (fun y => y.1 == t)
+  match before.getLast? with
+  | none => true
+  | some y => isRestart y.2
+
+/-- the global step list: every item in order (flagging the first response of each session; a
+session end = `Reset` then `ConnectError`), with the STREAM subscriptions after `k` items -/
+def stepsOf (sc : Scenario) : List StepR :=
+  let evs : List (List StepR) := sc.items.zipIdx.map (fun x =>
+    match x.1.2 with
+    | .it it => [StepR.step (Step.recv (nameOf sc x.1.1) (firstOfSession sc.items x.2 x.1.1) 0 it)]
+    | .restart clean => restartSteps (nameOf sc x.1.1) 0 (if clean then "EOF" else "cut") 0)
   match sc.client with
-  | .once => recvs
+  | .once => evs.flatten
   | .stream k =>
-    let subs := sc.targets.map (fun d => Step.subscribe ("s:" ++ d.name) d.name sc.queries)
-    recvs.take k ++ subs ++ recvs.drop k
+    let subs := sc.targets.map (fun d => StepR.step (Step.subscribe ("s:" ++ d.name) d.name sc.queries))
+    (evs.take k).flatten ++ subs ++ (evs.drop k).flatten
 
 def sortedTargets (sc : Scenario) : List String := sortStrs (sc.targets.map (·.name)).eraseDups
 
 def runModel (sc : Scenario) : String :=
-  let s := (Sys.start (cfgOf sc)).run encStr (stepsOf sc)
+  let s := (Sys.start (cfgOf sc)).runR encStr (stepsOf sc)
   if s.crashed then "crashed" else
   " ".intercalate ((sortedTargets sc).map (fun name =>
     match sc.client with
@@ -207,33 +233,40 @@ def renderCliClient (name : String) (c : Client) : String :=
 
 /-- op `cli`: what `gnmi_cli -qt once` displays per target after everything was relayed -/
 def runCli (sc : Scenario) : String :=
-  let s := (Sys.start (cfgOf sc)).run encStr (stepsOf { sc with client := .once })
+  let s := (Sys.start (cfgOf sc)).runR encStr (stepsOf { sc with client := .once })
   if s.crashed then "crashed" else
   " ".intercalate ((sortedTargets sc).map (fun name => renderCliClient name (s.once name sc.queries)))
 
-def itemsOfTarget (sc : Scenario) (name : String) : List TItem :=
-  (sc.items.filter (fun x => nameOf sc x.1 == name)).map (·.2)
+/-- what target `name` streamed in its last session -/
+def itemsOfTarget (sc : Scenario) (name : String) : List TItem := Relay.lastSession name (stepsOf sc)
+
+def restarted (sc : Scenario) (name : String) : Bool :=
+  sc.items.any (fun x => nameOf sc x.1 == name && isRestart x.2)
 
 def isSync : TItem → Bool
   | .sync => true
   | _ => false
 
-/-- the collector's own two boolean leaves, as the spec expects them -/
-def metaLeaves (name : String) (items : List TItem) (queries : List Path) : List (Path × CVal) :=
-  let mk (leaf : String) : List (Path × CVal) :=
-    if Relay.selected queries [metaRoot, leaf] then [([name, metaRoot, leaf], .scalar (.bool true))] else []
-  (if items.isEmpty then [] else mk "connected") ++ (if items.any isSync then mk "sync" else [])
+/-- the collector's own two boolean leaves, as the spec expects them (`items`: the last session;
+`restarted`: the target's session ended at least once — `Reset` writes both leaves as `false`) -/
+def metaLeaves (name : String) (items : List TItem) (restarted : Bool) (queries : List Path) : List (Path × CVal) :=
+  let mk (leaf : String) (b : Bool) : List (Path × CVal) :=
+    if Relay.selected queries [metaRoot, leaf] then [([name, metaRoot, leaf], .scalar (.bool b))] else []
+  (if items.isEmpty then (if restarted then mk "connected" false else []) else mk "connected" true) ++
+  (if items.any isSync then mk "sync" true else if restarted then mk "sync" false else [])
 
 def wellFormedScenario (sc : Scenario) : Bool :=
   sc.queries.all Relay.queryOK &&
   (sc.targets.map (·.name)).eraseDups.length == sc.targets.length &&
-  sc.targets.all (fun d => d.name != "" && d.name != "*" && Relay.wellFormed false (itemsOfTarget sc d.name))
+  sc.targets.all (fun d => d.name != "" && d.name != "*" &&
+    (Relay.sessionsOf d.name (stepsOf sc)).all (Relay.wellFormed false))
 
 def runSpec (sc : Scenario) : String :=
   " ".intercalate ((sortedTargets sc).map (fun name =>
     let items := itemsOfTarget sc name
     encStr name ++ "=sync" ++
-      renderLeaves (Relay.expected name (Relay.finalView items) sc.queries ++ metaLeaves name items sc.queries)))
+      renderLeaves (Relay.expected name (Relay.finalView items) sc.queries ++
+        metaLeaves name items (restarted sc name) sc.queries)))
 
 def step (s : St) (args : List String) : St × String × String :=
   match args with
@@ -259,7 +292,8 @@ def step (s : St) (args : List String) : St × String × String :=
         | [] => "-"
         | it :: r => if Relay.itemOK false v it then go (Relay.applyItem v it) (i + 1) r else toString i
       go [] 0 items
-    let o := " ".intercalate (sc.targets.map (fun d => encStr d.name ++ ":" ++ firstBad (itemsOfTarget sc d.name)))
+    let o := " ".intercalate (sc.targets.map (fun d => encStr d.name ++ ":" ++
+      ",".intercalate ((Relay.sessionsOf d.name (stepsOf sc)).map firstBad)))
     (s, o, o)
   | _ => (s, "bad-op", "bad-op")
 
